@@ -4,7 +4,7 @@ pub open spec fn sec_of_idx(si: int) -> Section { if si == 0 { Section::Question
 pub proof fn lemma_wf_offsets(mid: ParsedPacket)
     requires mid.wf(), pf_packet(mid.bytes())
     ensures ({ let u = mid.bytes();
-        u.len() <= usize::MAX && 12 <= pf_q_end(u) <= pf_e1(u) <= pf_e2(u) <= u.len()
+        mid.packet.is_some() && u.len() <= usize::MAX && 12 <= pf_q_end(u) <= pf_e1(u) <= pf_e2(u) <= u.len()
         && mid.offset_question == some_if(be16(u, 4) == 1, 12)
         && mid.offset_answers == some_if(sec_n(u, 1) > 0, pf_q_end(u)) && mid.offset_nameservers == some_if(sec_n(u, 2) > 0, pf_e1(u))
         && mid.offset_additional == some_if(sec_n(u, 3) > 0, pf_e2(u))
